@@ -347,7 +347,8 @@ def run_property(prop, tier, a):
         missing = []
     for k in missing:
         undecided.append((k, 'obligation present in obligations.lock.json was not generated from the current tree'))
-    if total == 0:
+    n_eval_extra = sum(v.get('evaluations', 0) for v in extra_cov.values())
+    if total == 0 and not bounded_cov and not n_eval_extra:
         errors.append('zero obligations generated')
     # ---- report
     out = []
@@ -397,12 +398,15 @@ def run_property(prop, tier, a):
     for k, v in extra_cov.items():
         cov['engine_' + k] = v
     if level in ('exploration', 'fault_enumeration', 'other'):
-        ev = sum(v.get('evaluations', 0) for v in extra_cov.values())
-        dn = sum(v.get('distinct_nontrivial', 0) for v in extra_cov.values())
+        ev = sum(v.get('evaluations', 0) for v in extra_cov.values()) + sum(b['evaluations'] for b in bounded_cov)
+        dn = sum(v.get('distinct_nontrivial', 0) for v in extra_cov.values()) + sum(b['distinct_nontrivial'] for b in bounded_cov)
         if ev:
             cov['evaluations'] = ev
             cov['distinct_nontrivial'] = dn
-            cov['rule'] = '; '.join(v.get('rule', '') for v in extra_cov.values() if v.get('rule'))
+            cov['rule'] = '; '.join([v.get('rule', '') for v in extra_cov.values() if v.get('rule')] + [
+                'bounded: inputs enumerated by pyvc/gens.py:%s (grids of boundary mantissas x exponents x precisions x rounding modes, VERIF_SEED for the sampled part); an input counts as non-trivial/distinct if it satisfies the contract precondition and differs as an argument tuple' % b['gen'] for b in bounded_cov])
+            if bounded_cov and not cov.get('samples'):
+                cov['samples'] = bounded_cov[0].get('samples', [])
     evidence = {
         'property_id': prop, 'tier': tier, 'seed': seed, 'level': level, 'coverage': cov,
         'assumptions': ENCODING_ASSUMPTIONS + P.get('assumptions', []),
